@@ -79,7 +79,7 @@ theorem weight_conserved_levels {P : Params} (ok : ParamsOk P) {c : Cmp α} (sw 
 
 /-- the FULL statement of the property for the iterator: it yields num_retained pairs whose weights sum to n -/
 def weight_conserved_full : Prop :=
-  ∀ (P : Params), ParamsOk P → ∀ (c : Cmp Int), StrictWeak c.lt → ∀ (ops : List (Op Int)) (coins : Coins) (i : Nat) (s : Sketch Int),
+  ∀ (α : Type) (P : Params), ParamsOk P → ∀ (c : Cmp α), StrictWeak c.lt → ∀ (ops : List (Op α)) (coins : Coins) (i : Nat) (s : Sketch α),
     (reach P c ops coins)[i]? = some s → s.iter.length = s.retained ∧ (s.iter.map Prod.snd).sum = s.n
 
 /-- FALSE for the current code (defect D2): after the merge of `exOps` level 0 of sketch 0 is empty, the
@@ -90,7 +90,7 @@ theorem weight_conserved_full_false : ¬ weight_conserved_full := by
   have hs : ∃ s, (reach genParams intCmp exOps noCoins)[0]? = some s ∧ (s.iter.map Prod.snd).sum = 12 ∧ s.n = 24 := by
     decide +kernel
   obtain ⟨s, h1, h2, h3⟩ := hs
-  have := (h genParams gen_params_ok intCmp intCmp_sw exOps noCoins 0 s h1).2
+  have := (h Int genParams gen_params_ok intCmp intCmp_sw exOps noCoins 0 s h1).2
   omega
 
 /-- what holds for the iterator as coded: the sum is n whenever level 0 is non-empty (in particular right after
